@@ -391,5 +391,5 @@ def reuse(_):
 
 
 def run_case(case, tier):
-    ctx = explore.explore(make_harness(case, tier), max_paths=20000, time_budget_s=400, decide_timeout_ms=20000)
+    ctx = explore.explore(make_harness(case, tier), max_paths=(20000 if tier == 'quick' else 800000), time_budget_s=(400 if tier == 'quick' else 3600), decide_timeout_ms=20000)
     return driver.result_from_ctx(ctx)
